@@ -9,10 +9,13 @@ class InjectedFault(OSError):
 class FaultyFile(io.RawIOBase):
     """In-memory 'disk' that records every write call; at call index `fail_at` keeps only the first
     `keep` bytes of that call and raises OSError (short write followed by failure). Fail-stop: every
-    later write raises too."""
+    later write raises too (unless
+    `transient`)."""
 
-    def __init__(self, fail_at=None, keep=0):
+    def __init__(self, fail_at=None, keep=0, transient=False):
         super().__init__()
+        self.transient = transient  # the device recovers: only the one call fails (ENOSPC-style), later calls work
+        self.fault_offset = None
         self.fail_at = fail_at
         self.keep = keep
         self.calls = []  # sizes of write calls
@@ -39,7 +42,8 @@ class FaultyFile(io.RawIOBase):
         self.calls.append(len(b))
         if self.fail_at is not None and idx == self.fail_at:
             self.disk += b[: self.keep]
-            self.failed = True
+            self.failed = not self.transient
+            self.fault_offset = len(self.disk)
             raise InjectedFault("injected: write %d failed after %d bytes" % (idx, min(self.keep, len(b))))
         self.disk += b
         return len(b)
